@@ -122,7 +122,16 @@ func (n *Node) String() string {
 	case n == nil:
 		return "<nil>"
 	case !n.leaf():
-		s = n.L.String() + " " + n.Op + " " + n.R.String()
+		// children that are themselves AND/OR are always printed in parentheses: the text shows
+		// the tree exactly (Paren only says whether the AST carries an explicit ParenExpr node)
+		l, r := n.L.String(), n.R.String()
+		if !n.L.leaf() && !n.L.Paren {
+			l = "(" + l + ")"
+		}
+		if !n.R.leaf() && !n.R.Paren {
+			r = "(" + r + ")"
+		}
+		s = l + " " + n.Op + " " + r
 	case n.Op == "MATCHPHRASE":
 		s = "MATCHPHRASE(" + n.Col + ", " + n.Lit.String() + ")"
 	case n.Op == "IN":
